@@ -2,6 +2,7 @@
 from __future__ import annotations
 
 import copy
+import urllib.parse
 from typing import Any, Dict, List, Optional, Tuple
 
 from hypothesis import strategies as st
@@ -85,6 +86,10 @@ def proxy_case(draw: Any) -> Dict[str, Any]:
             headers += draw(header_lines("forwarded", forwarded_element()))  # must be ignored
     else:
         headers += draw(header_lines("forwarded", forwarded_element()))
+        if draw(st.booleans()):  # the other family, which modern mode must ignore altogether
+            for name, elem in (("x-forwarded-for", _ip), ("x-forwarded-proto", _proto),
+                               ("x-forwarded-host", _host)):
+                headers += draw(header_lines(name, elem))
     order = draw(st.permutations(list(range(len(headers)))))
     # keep the relative order of lines of the same name (it is significant)
     headers = _stable_shuffle(headers, order)
@@ -529,7 +534,8 @@ def redirect_one(mw: Any, case: Dict[str, Any], calls: List[tuple]) -> CaseInfo:
         headers.insert(len(headers) // 2, (b"host", s2b(case["host_header"])))
     scope: Dict[str, Any] = {
         "type": typ, "scheme": scheme, "http_version": case["http_version"],
-        "path": case["raw_path"], "raw_path": s2b(case["raw_path"]),
+        # as the server builds it: path is the percent-decoded form of raw_path
+        "path": urllib.parse.unquote(case["raw_path"]), "raw_path": s2b(case["raw_path"]),
         "query_string": s2b(case["query"]), "root_path": case["root_path"], "headers": headers,
         "extensions": {"websocket.http.response": {}} if (typ == "websocket" and case["ws_ext"])
         else {},
